@@ -1007,6 +1007,10 @@ func (w *World) checkQuiescent(after string) bool {
 	if w.failed {
 		return false
 	}
+	if w.TraceOn {
+		s := w.F.VerifSnapshot()
+		fmt.Fprintf(os.Stderr, "SNAP after %s: maxPages=%d dataEnd=%d metaEnd=%d metaTotal=%d dataFree=%v metaFree=%v freelistPages=%v walPages=%v wal=%v\n", after, s.MaxPages, s.DataEnd, s.MetaEnd, s.MetaTotal, s.DataFree, s.MetaFree, s.FreelistPages, s.WALPages, s.WALMapping)
+	}
 	if w.Mon.LockIdle {
 		shared, pending, resFree := w.F.VerifLockState()
 		if shared != 0 || pending || !resFree {
